@@ -1,28 +1,30 @@
 -------------------------------- MODULE MC_Dmrg -------------------------------
 EXTENDS Dmrg
 CONSTANTS SHAPES, KICKS, NSWP, RY0
-VARIABLES M, kick, Ry, i, k, phase, last, done
-vars == <<M, kick, Ry, i, k, phase, last, done>>
+VARIABLES M, kick, Ry, i, k, phase, last, done, dir
+vars == <<M, kick, Ry, i, k, phase, last, done, dir>>
 
 Init == /\ M \in SHAPES /\ kick \in KICKS
         /\ \E r \in RY0 : Ry = [p \in 1..(Len(M) + 1) |-> IF p = 1 \/ p = Len(M) + 1 THEN 1 ELSE r]
-        /\ i = 0 /\ k = 0 /\ phase = "orth" /\ last = FALSE /\ done = FALSE
+        /\ i = 0 /\ k = 0 /\ phase = "orth" /\ last = FALSE /\ done = FALSE /\ dir = "lr"
 
+\* k counts the steps of the sweep; the position visited is KAt(dir, d, k)
 DoOrth == /\ phase = "orth" /\ ~done
-          /\ Ry' = Orth(M, Ry) /\ phase' = "step" /\ k' = 0
+          /\ \E dd \in {"lr", "rl"} : dir' = dd /\ Ry' = OrthD(dd, M, Ry)
+          /\ phase' = "step" /\ k' = 0
           /\ UNCHANGED <<M, kick, i, last, done>>
 DoStep == /\ phase = "step" /\ ~done /\ k <= Len(M) - 2
-          /\ LET rows == Rows(M, Ry, k)  cols == Cols(M, Ry, k) IN
+          /\ LET q == KAt(dir, Len(M), k)  rows == Rows(M, Ry, q)  cols == Cols(M, Ry, q) IN
              \E rsvd \in 1..Min2(rows, cols) :
-                Ry' = [Ry EXCEPT ![k + 2] = StepOut(rows, rsvd, kick, i = NSWP - 1)]
+                Ry' = [Ry EXCEPT ![q + 2] = StepOutD(dir, rows, cols, rsvd, kick, i = NSWP - 1)]
           /\ k' = k + 1
-          /\ UNCHANGED <<M, kick, i, phase, last, done>>
+          /\ UNCHANGED <<M, kick, i, phase, last, done, dir>>
 EndSweep == /\ phase = "step" /\ ~done /\ k = Len(M) - 1
             /\ IF last \/ i = NSWP - 1
                THEN done' = TRUE /\ UNCHANGED <<i, last, phase, k>>
                ELSE /\ \E conv \in BOOLEAN : last' = conv
                     /\ i' = i + 1 /\ phase' = "orth" /\ UNCHANGED <<done, k>>
-            /\ UNCHANGED <<M, kick, Ry>>
+            /\ UNCHANGED <<M, kick, Ry, dir>>
 Stutter == done /\ UNCHANGED vars
 Spec == Init /\ [][DoOrth \/ DoStep \/ EndSweep \/ Stutter]_vars
 
@@ -30,7 +32,8 @@ RanksOK == /\ Ry[1] = 1 /\ Ry[Len(M) + 1] = 1
            /\ \A p \in 1..(Len(M) + 1) : Ry[p] >= 1
 \* every core [Ry[k], M[k], Ry[k+1]] of the result can hold a left factor with orthonormal columns after a step:
 \* the new rank never exceeds the number of rows of the supercore
-RowsBound == phase = "step" => \A j \in 1..k : Ry[j + 1] <= Ry[j] * M[j]
+RowsBound == phase = "step" => \A p \in 0..(k - 1) : LET q == KAt(dir, Len(M), p) IN
+                                  IF dir = "lr" THEN Ry[q + 2] <= Ry[q + 1] * M[q + 1] ELSE Ry[q + 2] <= M[q + 2] * Ry[q + 3]
 \* the result is returned only after a sweep that ran with last = TRUE, or when the sweeps are exhausted
 ExitOK == done => (last \/ i = NSWP - 1)
 Bounded == i <= NSWP - 1
